@@ -417,6 +417,42 @@ def check_slot(ld, slot, exc_type, with_catch, res):
                   {'delivered': repr(got)[:300], 'user_function_raised': len(raised)}, sig=sig)
 
 
+def check_exception_values(ld, res):
+    """Examples that ARE exception objects of a listed type (stored, or
+    returned by a function that does not raise them) are ordinary examples:
+    nothing raised, nothing dropped."""
+    FE = ld.core.FilterException
+    for plan, (exceptions, _) in plans(ld).items():
+        for origin in ('stored', 'returned-by-map'):
+            for with_key in (False, True):
+                case = {'site': 'exception-objects-as-examples', 'plan': plan,
+                        'origin': origin, 'with_key': with_key}
+                res.case(('excvals', plan, origin, with_key), True)
+                vals = [1, E1('data'), FE('data'), Sub1('data'), KeyError('data'), 6,
+                        IndexError('data'), E2('data')]
+                keys = [f'k{i}' for i in range(len(vals))]
+                try:
+                    if origin == 'stored':
+                        ds = ld.new(dict(zip(keys, vals)), immutable_warranty='copy')
+                    else:
+                        ds = ld.new(dict(zip(keys, range(len(vals))))).map(lambda i: vals[i])
+                    c = ds.catch() if exceptions is None else ds.catch(exceptions)
+                    got = list(c.items()) if with_key else list(c)
+                except BaseException as e:
+                    res.violation('listed-exception-propagated', case, exc_sig(e),
+                                  sig={'site': 'exception-objects-as-examples'})
+                    continue
+                res.count('exception_objects_as_examples_checked')
+                flat = [v for _, v in got] if with_key else got
+                ok = len(flat) == len(vals) and all(
+                    type(a) is type(b) and (a == b or getattr(a, 'args', 0) == getattr(b, 'args', 1))
+                    for a, b in zip(flat, vals))
+                if not ok or (with_key and [k for k, _ in got] != keys):
+                    res.violation('catch-output-differs', case,
+                                  {'got': repr(got)[:300], 'want': repr(vals)},
+                                  sig={'site': 'exception-objects-as-examples'})
+
+
 def check_equivalence(ld, n, failing, res, style='bool'):
     """lazy filter == eager filter == FilterException under catch; the
     predicate may return any object with the right truth value."""
@@ -479,6 +515,7 @@ def run_shard(spec, res):
     ld = import_lazy_dataset()
     N = spec['N']
     if spec['what'] == 'slots':
+        check_exception_values(ld, res)
         for slot in slots(ld, None, None):
             for exc_type in CONTROL_TYPES:
                 for with_catch in (False, True):
@@ -541,6 +578,8 @@ def finalize(res, tier):
 
 def replay(case, res):
     ld = import_lazy_dataset()
+    if case.get('site') == 'exception-objects-as-examples':
+        return check_exception_values(ld, res)
     if case.get('site') == 'user-function-slots':
         check_slot(ld, case['slot'], {t.__name__: t for t in CONTROL_TYPES}[case['exception']],
                    case['catch_unrelated_on_top'], res)
